@@ -61,7 +61,7 @@ for imp in re.findall(r"^import .*$", a, re.M):
 arms_a = re.findall(r"^  \| \".*=> .*$", a, re.M)
 for arm in arms_a:
     if arm not in b:
-        b = b.replace('  | _ => .bad s!"unknown op {op}"', arm + '\n  | _ => .bad s!"unknown op {op}"'); print("Driver.lean:", arm.strip()[:100])
+        b = re.sub(r"^  \| _ => ", lambda m: arm + "\n" + m.group(0), b, count=1, flags=re.M); print("Driver.lean:", arm.strip()[:100])
 wr(os.path.join(dst, "lean/Driver.lean"), b)
 # 4. main.rs
 a, b = rd(os.path.join(src, "harness/src/main.rs")), rd(os.path.join(dst, "harness/src/registry.rs.txt"))
